@@ -76,6 +76,9 @@ def run(ctx):
     ctx.tlc("MC_Syntax", "MC_Syntax_sim", replay="request", simulate={"num": 40 if q else 1500, "depth": 500, "procs": 6 if q else 12, "seed_offset": 90},
             label="MC_Syntax_sim", timeout=7200)
     ctx.tlc("MC_DocComment", "MC_DocComment_tags1", replay="request", coverage=False)
+    os.environ["VERIF_REQUEST_SAMPLE"] = "6" if q else "1"
+    ctx.tlc("MC_DocComment", "MC_DocComment_tags2op3", replay="request", coverage=False)
+    os.environ["VERIF_REQUEST_SAMPLE"] = "1"
     ctx.tlc("MC_Request", "MC_Request", replay="request", coverage=False)
     os.environ["VERIF_REQUEST_SAMPLE"] = "60" if q else "4"
     ctx.tlc("MC_DocComment", "MC_DocComment_multi", replay="request", coverage=False)
